@@ -119,6 +119,8 @@ func TestC20Model(t *testing.T) {
 		mustRefetch := map[string]bool{}
 		requested := map[string]map[eth2p0.ValidatorIndex]bool{} // kind/epoch -> indices known to the cache (model)
 		var held []any                                           // previously returned results (for mutation)
+		var heldIdx [][]eth2p0.ValidatorIndex                    // index slices the caller passed earlier (it may reuse or overwrite them afterwards)
+		callerBuf := make([]eth2p0.ValidatorIndex, 0, 16)        // a caller that builds every request in one buffer
 		var trace []string
 		partialHit, oddCount, invalidated := false, false, false
 
@@ -149,7 +151,12 @@ func TestC20Model(t *testing.T) {
 						}
 					}
 				}
-				effective := idx
+				if len(idx) > 0 && rapid.IntRange(0, 2).Draw(rt, "reuseBuffer") == 0 {
+					// the request is built in the buffer earlier requests were built in (their content is overwritten)
+					idx = append(callerBuf[:0], idx...)
+					trace = append(trace, "reused_index_buffer")
+				}
+				effective := append([]eth2p0.ValidatorIndex{}, idx...)
 				if len(idx) == 0 {
 					effective = active
 				}
@@ -243,12 +250,23 @@ func TestC20Model(t *testing.T) {
 				if len(held) < 6 {
 					held = append(held, raw)
 				}
+				if len(idx) > 0 && len(heldIdx) < 6 {
+					heldIdx = append(heldIdx, idx)
+				}
 			case c < 14: // a caller scribbles over a result it received earlier
 				if len(held) == 0 {
 					continue
 				}
 				valgen.Scribble(held[rapid.IntRange(0, len(held)-1).Draw(rt, "held")])
 				trace = append(trace, "mutate_result")
+				if len(heldIdx) > 0 && rapid.Bool().Draw(rt, "overwriteOwnIndexSlice") {
+					// ... and over an index slice it passed earlier (its own memory)
+					own := heldIdx[rapid.IntRange(0, len(heldIdx)-1).Draw(rt, "heldIdx")]
+					for i := range own {
+						own[i] = 9000 + eth2p0.ValidatorIndex(i)
+					}
+					trace = append(trace, "overwrite_own_index_slice")
+				}
 			case c < 16:
 				active = append([]eth2p0.ValidatorIndex{}, all[:rapid.IntRange(1, nVals).Draw(rt, "nActive2")]...)
 				cache.UpdateActiveValIndices(append([]eth2p0.ValidatorIndex{}, active...))
